@@ -95,6 +95,10 @@ def run_shard(shard, ctx):
         for nsec in (1, 2, 15, 16, 17, 31, 33, 129):
             for flen in (512, 511):
                 run_case({"kind": "fixed", "nsec": nsec, "flen": flen}, ctx)
+        # the guest data itself begins with VHD structures (a nested image): footer copy of a dynamic / fixed disk, cxsparse
+        for nested in ("dynamic-image", "fixed-footer", "cxsparse"):
+            for flen in (512, 511):
+                run_case({"kind": "fixed", "nsec": 64, "flen": flen, "nested": nested}, ctx)
 
 
 def run_case(case, ctx):
@@ -107,8 +111,15 @@ def run_case(case, ctx):
     if case["kind"] == "fixed":
         nsec = case["nsec"]
         size = nsec * 512
-        img = B.build_fixed(nsec, case["flen"])
-        disk = B.model_fixed(nsec)
+        prefix = b""
+        if case.get("nested") == "dynamic-image":
+            prefix = B.build_dynamic([DATA, HOLE], [0, None], 8, 2 * 4096, 2).tobytes()[:8 * 512]
+        elif case.get("nested") == "fixed-footer":
+            prefix = B.footer(12345 * 512, 2, B.FIXED_OFF)
+        elif case.get("nested") == "cxsparse":
+            prefix = B.build_dynamic([DATA], [0], 8, 4096, 1).tobytes()[512:512 + 1024]
+        img = B.build_fixed(nsec, case["flen"], prefix=prefix)
+        disk = B.model_fixed(nsec, prefix=prefix)
         states = slots = srcs = None
         unit = 512
         reqs = request_pairs(boundaries(size, 4096, buf))
